@@ -218,6 +218,30 @@ def run(chk: Check) -> None:
                % (c.qualname, " -> ".join(f.qualname for f in chain),
                   "/".join(g.qualname for g in guards) or "nothing", ", ".join(sharers) or "other kinds",
                   c.qualname), 3)
+        # a test of the exact class (type(other) is type(self)) turns away instances of a client's
+        # subclass, which are nodes of the kind with the same compared fields (a loaded copy is
+        # always of the stock class)
+        for f in chain:
+            o = f.param_names()[1]
+            me_ = f.self_name
+
+            def _class_of(e: ast.AST) -> Optional[str]:
+                if isinstance(e, ast.Call) and attr_path(e.func) == ("type",) and len(e.args) == 1 \
+                        and attr_path(e.args[0]) in ((o,), (me_,)):
+                    return attr_path(e.args[0])[0]
+                if isinstance(e, ast.Attribute) and e.attr == "__class__" and attr_path(e.value) in ((o,), (me_,)):
+                    return attr_path(e.value)[0]
+                return None
+            exact_tests = [n for n in walk_no_nested(f.node) if isinstance(n, ast.Compare) and len(n.ops) == 1
+                           and isinstance(n.ops[0], (ast.Is, ast.IsNot, ast.Eq, ast.NotEq))
+                           and _class_of(n.left) == o or isinstance(n, ast.Compare) and len(n.ops) == 1
+                           and isinstance(n.ops[0], (ast.Is, ast.IsNot, ast.Eq, ast.NotEq))
+                           and _class_of(n.comparators[0]) == o]
+            chk.ob("R18.2", "%s:%s:kind-guard-admits-subclasses" % (c.qualname, f.qualname), not exact_tests,
+                   f.loc(exact_tests[0]) if exact_tests else f.loc(),
+                   "%s tests the exact class of the other node (%s): a node of a client subclass with the same "
+                   "UUID and content is a node of this kind and must compare equal"
+                   % (f.qualname, unparse(exact_tests[0])[:60] if exact_tests else "-"), 2)
         # ---------------- R18.1
         if c.name != "CFG":
             init = c.find_method("__init__")
@@ -331,6 +355,34 @@ def run(chk: Check) -> None:
         ok = ".source.deep_eq(" in txt and ".target.deep_eq(" in txt and ".label" in txt
         chk.ob("R18.1", "CFG.deep_eq:edges-compared", ok, f.loc(),
                "CFG.deep_eq must compare edge labels by value and both endpoints by deep_eq", 2)
+        # ... for every pair of edges: no way round the three comparisons inside the loop over the
+        # pairs (a memo of endpoints "already compared" skips the comparison of a block that is
+        # paired with a different block the second time)
+        from ..cfg import CFG as _Flow
+        loops = [lp for lp in walk_no_nested(f.node) if isinstance(lp, ast.For) and any(
+            isinstance(x, ast.Attribute) and x.attr in ("source", "target") for b_ in lp.body for x in ast.walk(b_))]
+        if ok and len(loops) == 1:
+            lp = loops[0]
+            flow = _Flow(f.node)
+            try:
+                head = flow.by_ast[id(lp)]
+                body_in = [s_ for s_ in flow.g.successors(head)
+                           if flow.info[s_].kind == "branch" and flow.info[s_].value]
+            except (KeyError, AnalysisError):
+                body_in = []
+            for what in ("source", "target"):
+                sites = flow.nodes_where(lambda n, w=what: any(
+                    isinstance(x, ast.Call) and isinstance(x.func, ast.Attribute) and x.func.attr == "deep_eq"
+                    and isinstance(x.func.value, ast.Attribute) and x.func.value.attr == w for x in ast.walk(n)
+                    if not isinstance(n, (ast.For, ast.While, ast.If))) or (
+                    isinstance(n, ast.If) and any(
+                        isinstance(x, ast.Call) and isinstance(x.func, ast.Attribute) and x.func.attr == "deep_eq"
+                        and isinstance(x.func.value, ast.Attribute) and x.func.value.attr == w
+                        for x in ast.walk(n.test))))
+                wit = flow.path_avoiding(body_in[0], head, sites) if body_in else None
+                chk.ob("R18.1", "CFG.deep_eq:every-pair-compares-%s" % what, bool(body_in) and wit is None, f.loc(lp),
+                       "an iteration over the paired edges can finish without comparing the %s blocks by deep_eq: %s"
+                       % (what, " -> ".join(flow.describe_path(wit)) if wit else "-"), 3)
         # a CFG is its set of edges: the vertices of the backing multigraph are not content (an
         # endpoint stays a vertex after its last edge is discarded, and is not saved)
         bad = []
